@@ -266,6 +266,8 @@ fn async_cmd(a: &Args) {
     let mut base = GenCfg::basic(a.num("nmin", 2), a.num("nmax", 14), a.num("nres", 6));
     base.p_tl = a.num("ptl", 0.12);
     base.p_batch = a.num("pbatch", 0.06);
+    base.p_dep = a.num("pdep", 0.3);
+    base.p_barrier = a.num("pbarrier", 0.08);
     base.max_depth = 1;
     // a panic in a spawned job must not abort the process: it is data
     let p = Arc::new(
